@@ -30,7 +30,10 @@ func genParse(o *hx.Opts, put putFn) {
 		p(nm + "x")
 	}
 	for _, w := range []string{"all", "ALL", "pod", "Pod", "podsandbox", "PodSandbox", "container", "Container", " all", "all ", " pod", "container ",
-		"pods", "sandbox", "unknown", "unknown(0x2000)", ",", ",,", " ", "all,pod", "pod,container", "container,RunPodSandbox", "é", "İ", "K"} {
+		"pods", "sandbox", "unknown", "unknown(0x2000)", ",", ",,", " ", "all,pod", "pod,container", "container,RunPodSandbox", "é", "İ", "K",
+		// non-ASCII (outside the model's domain; recorded): U+0130 lower-cases to 'i', U+0131 does not,
+		// U+2003 and U+00A0 are trimmed by strings.TrimSpace
+		"StartContaİner", "StartContaıner", "\u2003StartContainer", "StartContainer\u00a0", "RunPodSandbox,StopContaİner"} {
 		p(w)
 	}
 	p("RunPodSandbox", "StopContainer")
